@@ -2,8 +2,9 @@
 """seedimport.py PROP VARIANT 'caught-by text' — copy a confirmed seeded change into /verif/seeded/<PROP><VARIANT>/"""
 import sys, os, json, shutil, glob
 p, v, caught = sys.argv[1], sys.argv[2], sys.argv[3]
-src = f"/tmp/seedout/{p}/{v}"
-dst = f"/verif/seeded/{p}{v}"
+import os as _os
+src = _os.environ.get("SEEDROOT","/tmp/seedout") + f"/{p}/{v}"
+dst = f"/verif/seeded/{p}" + _os.environ.get("SEEDNAME", v)
 os.makedirs(dst, exist_ok=True)
 shutil.copy(f"{src}/patch.diff", dst)
 for f in glob.glob(f"{src}/*_test.go") + glob.glob(f"{src}/*.go"):
